@@ -1644,11 +1644,13 @@ func (r *stack) lock() {
 	if r.canMutex() {
 		if mutex, found := r.mutex(); found {
 			verifPoint("lock.want", r, mutex)
-			sc, _ := r.config()
 			_now := now()
-			sc.ldr = &_now
 			mutex.Lock()
 			verifPoint("lock.held", r, mutex)
+			// the bookkeeping is shared state:
+			// only touch it while holding the lock.
+			sc, _ := r.config()
+			sc.ldr = &_now
 		}
 	}
 }
